@@ -180,7 +180,7 @@ BeginWrite(res) ==
      THEN /\ res = Ok(0)
           /\ wtx' = [on |-> TRUE, t |-> Latest.t, psp |-> Latest.psp, open |-> {},
                      dirty |-> FALSE, poisoned |-> FALSE, d |-> "imm", base |-> Len(hist),
-                     pspMod |-> FALSE, inval |-> {}]
+                     pspMod |-> FALSE, inval |-> {}, tainted |-> FALSE]
      ELSE /\ IsErr(res)
           /\ UNCHANGED wtx
   /\ UNCHANGED <<hist, dur, inflight, readers, rpend, eph, nextOrd, its, latch>>
@@ -209,22 +209,28 @@ CommitBegin ==
 \* commit() returned res
 CommitEnd(res) ==
   /\ wtx.on /\ wtx.open = {}
-  /\ inflight' = <<>>
   /\ wtx' = NoTx
   /\ IF wtx.poisoned
      THEN /\ IsE(res, "TransactionPoisoned")
+          /\ inflight' = <<>>
           /\ UNCHANGED <<hist, dur, eph, latch>>
      ELSE IF ~IsErr(res)
      THEN /\ hist' = Append(hist, Candidate)
           /\ dur' = IF wtx.d = "imm" THEN Len(hist) + 1 ELSE dur
           /\ eph' = EphAfterCommit
+          /\ inflight' = <<>>
           /\ UNCHANGED latch
-     ELSE \* a commit that failed for any other reason: applied entirely or not at all, which of
-          \* the two is not known; writes are refused from now on
+     ELSE \* a commit that failed for any other reason: applied entirely or not at all, which of the
+          \* two is not known - and what later transactions of this process see need not be what
+          \* the storage holds.  Writes are refused from now on.  Either later reads see the
+          \* commit (it joins hist) or they do not, and then it stays a possible outcome of the
+          \* next recovery (it stays in flight until the database is reopened).
           /\ latch' = "failed"
-          /\ \/ UNCHANGED <<hist, dur, eph>>
+          /\ \/ /\ inflight' = <<Candidate>>
+                /\ UNCHANGED <<hist, dur, eph>>
              \/ /\ hist' = Append(hist, Candidate)
                 /\ eph' = EphAfterCommit
+                /\ inflight' = <<>>
                 /\ UNCHANGED dur
   /\ UNCHANGED <<readers, rpend, nextOrd, its>>
 
@@ -509,8 +515,8 @@ MRange(src, n, lo, hi, rev, res) ==
 (* consumed later, possibly after the transaction handle that produced it  *)
 (* is gone and after any number of later commits.                          *)
 
-Hold(it, src, n, lo, hi) ==
-  /\ it \notin DOMAIN its /\ src # "w" /\ ReadOk(src, n, "t")
+Hold(it, src, n, lo, hi, res) ==
+  /\ it \notin DOMAIN its /\ src # "w" /\ ReadOk(src, n, "t") /\ res = Ok(0)
   /\ its' = Put(its, it, [idx |-> readers[src], t |-> n, rem |-> Sel(Content(src, n), lo, hi)])
   /\ UNCHANGED <<hist, dur, inflight, wtx, readers, rpend, eph, nextOrd, latch>>
 
@@ -665,7 +671,7 @@ CrashProbe(p) ==
 
 \* full dump through a view: must be exactly that view
 Dump(src, obs) ==
-  /\ SrcOk(src)
+  /\ SrcOk(src) /\ "tables" \in DOMAIN obs
   /\ src = "w" => wtx.open = {}
   /\ ObsTablesMatch(obs, Tables(src))
   /\ src = "w" => (Range(obs.psp) = DOMAIN wtx.psp /\ Len(obs.psp) = Cardinality(DOMAIN wtx.psp))
